@@ -31,6 +31,9 @@ type AttributePath struct {
 	Lockable bool
 	// Path is handled by Git LFS (i.e., filter=lfs)
 	Tracked bool
+	// The entry says something about the filter attribute at all (an entry
+	// that only has the 'lockable' attribute does not)
+	HasFilter bool
 	// The entry comes from an attribute file in a subdirectory and its
 	// pattern contains no slash, so it matches at any depth below that
 	// directory, not only directly inside it
@@ -172,11 +175,12 @@ func AttrPathsFromReader(mp *gitattr.MacroProcessor, fpath, workingDir string, r
 		}
 
 		paths = append(paths, AttributePath{
-			Path:     pattern,
-			Source:   source,
-			Lockable: lockable,
-			Tracked:  tracked,
-			AnyDepth: anyDepth,
+			Path:      pattern,
+			Source:    source,
+			Lockable:  lockable,
+			Tracked:   tracked,
+			HasFilter: hasFilter,
+			AnyDepth:  anyDepth,
 		})
 	}
 
